@@ -2,6 +2,7 @@ package rules
 
 import (
 	"fmt"
+	"go/types"
 	"sort"
 	"strings"
 
@@ -16,12 +17,12 @@ func init() { All["C01"] = c01 }
 // registration.FetchNodeCredentials.
 type fetchAnchors struct {
 	fn       *ssa.Function
-	req      *ssa.Parameter // *FetchNodeCredentialsRequest
-	validate *ssa.Call      // request-validation call
-	R        ssa.Value      // validated *FetchNodeCredentialsInfo
-	encrypts []*ssa.Call    // EncryptMessage calls (in fn or the helpers it was split into)
-	K        ssa.Value      // key source of EncryptMessage (node record), as a value of fn
-	credRets []*ssa.Return  // returns carrying a non-empty response
+	req      *ssa.Parameter  // *FetchNodeCredentialsRequest
+	validate *ssa.Call       // request-validation call
+	R        ssa.Value       // validated *FetchNodeCredentialsInfo
+	encrypts []*ssa.Call     // EncryptMessage calls (in fn or the helpers it was split into)
+	K        ssa.Value       // key source of EncryptMessage (node record), as a value of fn
+	credRets []*ssa.Return   // returns carrying a non-empty response
 	encSites []core.DeepSite // the EncryptMessage calls with their call chains
 	retSites []core.DeepSite // the returns that build the non-empty response, with their call chains
 }
@@ -364,50 +365,50 @@ func c01Wrapped(c *Ctx, a *fetchAnchors, gValid core.Guard) {
 	sort.Slice(roots, func(i, j int) bool { return roots[i].Pos() < roots[j].Pos() })
 	for _, root := range roots {
 		core.WithSubst(infoRoots[root], func() {
-		eachSource(root, func(src ssa.Value) {
-			construct := fmt.Sprintf("registration.FetchNodeCredentials registration-info source#%d", n)
-			n++
-			if core.IsNilConst(src) {
-				r.OK("R-C01.3", construct+" nil", p.Pos(fn.Pos()), "nil initial value")
-				return
-			}
-			if call, idx := core.CallResult(src); call != nil && idx == 0 &&
-				core.CalleeName(call.Common()) == mod+"/registration.DecryptWrappedRegistrationInfo" {
-				passesR := len(call.Call.Args) > 1 && core.Strip(call.Call.Args[1]) == R
-				r.Check(passesR, "R-C01.3", construct+" DecryptWrappedRegistrationInfo", p.Pos(call.Pos()),
-					"info unsealed with the server's registration wrapper from the validated request info", "DecryptWrappedRegistrationInfo is not given the validated request info")
-				return
-			}
-			if al, ok := src.(*ssa.Alloc); ok {
-				// must be the result argument of DecryptMessage whose key source is a loaded record
-				good, why := false, "allocation is never filled by DecryptMessage"
-				for _, dsite := range core.SplitCalls(fn, stopAtAnchors, mod+".DecryptMessage") {
-					dm := dsite.Instr.(*ssa.Call)
-					dsite.In(func() {
-					if len(dm.Call.Args) >= 4 && core.Strip(dm.Call.Args[3]) == al {
-						loaded := true
-						nk := 0
-						eachSource(dm.Call.Args[2], func(ks ssa.Value) {
-							nk++
-							kc, ki := core.CallResult(ks)
-							if !(kc != nil && ki == 0 && core.CalleeName(kc.Common()) == typesPkg+".LoadNodeInformation") {
-								loaded = false
-							}
-						}, typesPkg+".LoadNodeInformation")
-						ct := core.PathOf(dm.Call.Args[1])
-						if loaded && nk > 0 && ct.Root == ssa.Value(a.req) {
-							good, why = true, "filled by DecryptMessage(req."+ct.Last()+") under a record loaded from storage"
-						} else {
-							why = "DecryptMessage key source is not a record loaded from storage or ciphertext is not a request field"
-						}
-					}
-					})
+			eachSource(root, func(src ssa.Value) {
+				construct := fmt.Sprintf("registration.FetchNodeCredentials registration-info source#%d", n)
+				n++
+				if core.IsNilConst(src) {
+					r.OK("R-C01.3", construct+" nil", p.Pos(fn.Pos()), "nil initial value")
+					return
 				}
-				r.Check(good, "R-C01.3", construct+" DecryptMessage result", p.Pos(al.Pos()), why, why)
-				return
-			}
-			r.Bad("R-C01.3", construct, p.Pos(src.Pos()), "unreviewed source of registration info: "+core.ValueName(src))
-		}, mod+"/registration.DecryptWrappedRegistrationInfo")
+				if call, idx := core.CallResult(src); call != nil && idx == 0 &&
+					core.CalleeName(call.Common()) == mod+"/registration.DecryptWrappedRegistrationInfo" {
+					passesR := len(call.Call.Args) > 1 && core.Strip(call.Call.Args[1]) == R
+					r.Check(passesR, "R-C01.3", construct+" DecryptWrappedRegistrationInfo", p.Pos(call.Pos()),
+						"info unsealed with the server's registration wrapper from the validated request info", "DecryptWrappedRegistrationInfo is not given the validated request info")
+					return
+				}
+				if al, ok := src.(*ssa.Alloc); ok {
+					// must be the result argument of DecryptMessage whose key source is a loaded record
+					good, why := false, "allocation is never filled by DecryptMessage"
+					for _, dsite := range core.SplitCalls(fn, stopAtAnchors, mod+".DecryptMessage") {
+						dm := dsite.Instr.(*ssa.Call)
+						dsite.In(func() {
+							if len(dm.Call.Args) >= 4 && core.Strip(dm.Call.Args[3]) == al {
+								loaded := true
+								nk := 0
+								eachSource(dm.Call.Args[2], func(ks ssa.Value) {
+									nk++
+									kc, ki := core.CallResult(ks)
+									if !(kc != nil && ki == 0 && core.CalleeName(kc.Common()) == typesPkg+".LoadNodeInformation") {
+										loaded = false
+									}
+								}, typesPkg+".LoadNodeInformation")
+								ct := core.PathOf(dm.Call.Args[1])
+								if loaded && nk > 0 && ct.Root == ssa.Value(a.req) {
+									good, why = true, "filled by DecryptMessage(req."+ct.Last()+") under a record loaded from storage"
+								} else {
+									why = "DecryptMessage key source is not a record loaded from storage or ciphertext is not a request field"
+								}
+							}
+						})
+					}
+					r.Check(good, "R-C01.3", construct+" DecryptMessage result", p.Pos(al.Pos()), why, why)
+					return
+				}
+				r.Bad("R-C01.3", construct, p.Pos(src.Pos()), "unreviewed source of registration info: "+core.ValueName(src))
+			}, mod+"/registration.DecryptWrappedRegistrationInfo")
 		})
 	}
 	if n == 0 {
@@ -567,7 +568,13 @@ func c01Wrapping(c *Ctx) {
 					return eff == core.EffLoad || eff == core.EffLoadBy
 				}
 				cal := src.Common().StaticCallee()
-				return cal != nil && core.InModule(cal) && strings.Contains(strings.ToLower(cal.Name()), "load")
+				// a module callee from which a storage load is reachable (not judged by its name)
+				// in a back end's own Load, the value-reading helper method of the same type is the load
+				if cal != nil && fn.Name() == "Load" && cal.Pkg == fn.Pkg && cal.Signature.Recv() != nil && fn.Signature.Recv() != nil &&
+					types.Identical(cal.Signature.Recv().Type(), fn.Signature.Recv().Type()) {
+					return true
+				}
+				return cal != nil && core.InModule(cal) && (loadCG(c).Effects(cal)[core.EffLoad] || loadCG(c).Effects(cal)[core.EffLoadBy] || strings.Contains(strings.ToLower(cal.Name()), "load"))
 			})
 			if !found {
 				continue
@@ -700,7 +707,6 @@ func fetchBinding(c *Ctx, a *fetchAnchors, rule string) core.Guard {
 	return gValid
 }
 
-
 // c01Unwrap: the registration info of the wrapping flow is what the server's
 // registration wrapper decrypted - never a value the requester supplied.
 func c01Unwrap(c *Ctx) {
@@ -778,4 +784,13 @@ func c01Unwrap(c *Ctx) {
 	if n == 0 {
 		r.Unk("R-C01.8", name+" success returns", p.Pos(fn.Pos()), "none found")
 	}
+}
+
+var cachedCG *core.CallGraph
+
+func loadCG(c *Ctx) *core.CallGraph {
+	if cachedCG == nil || cachedCG.P != c.P {
+		cachedCG = core.BuildCallGraph(c.P)
+	}
+	return cachedCG
 }
